@@ -560,3 +560,37 @@ func genWrapInt(t *rapid.T, base int) int {
 	}
 	return base + m<<16
 }
+
+// genWrapAlias returns a value whose coefficient is what x's coefficient scaled by 10^k becomes when the product is
+// truncated to one or two machine words, placed k exponents below x: the two are different numbers, but an
+// alignment that multiplies without looking at the overflow (a plain uint64 product, a mul64 whose carry is
+// dropped) sees them as equal. When the product does not overflow the result is an ordinary cohort member.
+func genWrapAlias(t *rapid.T, x D) D {
+	nx := x.Num()
+	if nx.Class != ref.Finite || nx.Coef.Sign() == 0 {
+		return x
+	}
+	k := ir(t, 1, 38, "aliasK")
+	if nx.Exp-k < ref.Emin {
+		k = nx.Exp - ref.Emin
+	}
+	if k <= 0 {
+		return x
+	}
+	v := new(big.Int).Mul(nx.Coef, ref.Pow10(k))
+	w := uint(64)
+	if rapid.Bool().Draw(t, "alias128") {
+		w = 128
+	}
+	a := new(big.Int).And(v, new(big.Int).Sub(new(big.Int).Lsh(ref.One, w), ref.One))
+	if a.Cmp(ref.Cmax) > 0 {
+		a.And(a, new(big.Int).Sub(new(big.Int).Lsh(ref.One, 64), ref.One))
+	}
+	if ir(t, 0, 5, "aliasOff") == 0 {
+		a.Add(a, bi(int64(ir(t, -1, 1, "off"))))
+		if a.Sign() < 0 || a.Cmp(ref.Cmax) > 0 {
+			a.SetInt64(1)
+		}
+	}
+	return DFin(nx.Neg, a, nx.Exp-k)
+}
